@@ -206,6 +206,35 @@ def prefix_count(xs, k, field):
     return sum(len(x[field]) for x in xs[:k])
 
 
+_VALS_POOL = []
+
+
+def vals():
+    """run-time stand-in for 'all values': every dict key / scalar reachable from the arguments and the result, plus a few foreign ones"""
+    return list(_VALS_POOL) + ['__no_such_key__', 0, 1, None]
+
+
+def set_vals_pool(objs):
+    seen, pool = set(), []
+
+    def walk(o, depth=0):
+        if id(o) in seen or depth > 4:
+            return
+        seen.add(id(o))
+        if isinstance(o, dict):
+            for k, v in o.items():
+                if k not in pool:
+                    pool.append(k)
+                walk(v, depth + 1)
+        elif isinstance(o, (list, tuple, set)):
+            for x in o:
+                walk(x, depth + 1)
+        elif isinstance(o, (str, int, float)) and o not in pool:
+            pool.append(o)
+    walk(objs)
+    _VALS_POOL[:] = pool[:200]
+
+
 def ints():
     return range(-6, 7)
 
